@@ -3052,14 +3052,25 @@ def merge_dequant_lut_quant(op, arch, nng=None):
     if pre_op.inputs[0].dtype not in (DataType.int8, DataType.int16) or pre_op.inputs[0].dtype != post_op.outputs[0].dtype:
         return op
 
-    lut_op.set_input_tensor(pre_op.inputs[0], 0)
-    lut_op.set_output_tensor(post_op.outputs[0])
-
+    ifm = pre_op.inputs[0]
+    ofm = post_op.outputs[0]
+    float_ifm = lut_op.inputs[0]
+    float_ofm = lut_op.outputs[0]
+    lut_op.set_input_tensor(ifm, 0)
+    lut_op.set_output_tensor(ofm)
     lut_op.set_ifm_ofm_shapes()
 
-    ifm, ofm = lut_op.get_ifm_ofm()
-    lut_op.run_on_npu = arch.tflite_supported_operators.is_operator_supported(lut_op)
+    if not arch.tflite_supported_operators.is_operator_supported(lut_op):
+        # The merged operator would be left on the CPU, where only the original float operators are valid: undo
+        lut_op.set_input_tensor(float_ifm, 0)
+        if lut_op in ifm.consumer_list:
+            ifm.consumer_list.remove(lut_op)
+        lut_op.set_output_tensor(float_ofm)
+        post_op.set_output_tensor(ofm)
+        lut_op.set_ifm_ofm_shapes()
+        return op
 
+    lut_op.run_on_npu = True
     return lut_op
 
 def supported_operator_check(op, arch, nng):
